@@ -142,6 +142,9 @@ def rev_meta(rev):
 
 
 FIX = None
+# TLC -continue reports the FIRST violated invariant of a state: most specific witnesses first
+WITNESSES = ("WitnessCommitOnSide", "WitnessNestedLock", "WitnessPendingConfig", "WitnessGhostTag", "WitnessTagConflict",
+             "WitnessDiverged", "WitnessOffMainline")
 
 
 class Session:
@@ -424,6 +427,7 @@ def replay_paths(sub, chunk):
     fx = FIX
     for acts, modes in chunk:
         runs = {}
+        nreq = 0
         for mode in modes:
             steps, proto, reqs = replay(fx, acts, mode)
             runs[mode] = steps
@@ -432,7 +436,7 @@ def replay_paths(sub, chunk):
                     sub.machinery("smart protocol version %s negotiated, expected 3" % proto)
                 if reqs == 0:
                     sub.machinery("the remote replay made no smart request")
-                sub.cov["requests"] = sub.cov.get("requests", 0) + reqs
+                nreq += reqs
         for mode in modes[1:]:
             d = first_difference(acts, runs["local"], runs[mode])
             if d is not None:
@@ -447,7 +451,7 @@ def replay_paths(sub, chunk):
         muts = tuple(json.dumps(a) for a in acts if a[0] in MUTATORS)
         if len(muts) >= 2:
             sub.nontrivial((muts, tuple(json.dumps(a) for a in acts)))
-        sub.cov.setdefault("_collect", []).append({"acts": acts, "runs": [[m, runs[m]] for m in modes]})
+        sub.cov.setdefault("_collect", []).append({"acts": acts, "runs": [[m, runs[m]] for m in modes], "requests": nreq})
         if len(sub.cov["samples"]) < 1 and len(acts) >= 6 and len(modes) == 3:
             sub.sample({"acts": acts, "local": [s[:2] for s in runs["local"]], "final_disk": runs["local"][-1][2],
                         "remote_equal": all(runs[m] == runs["local"] for m in modes)})
@@ -517,7 +521,9 @@ def cover(nodes, edges, inits, rng, max_len):
 
 
 def graph_paths(ctx, vfs, maxlen, max_len):
-    nodes, edges, inits, res = tlc.graph(ctx, "BranchOpsMC", cfg_text=model_cfg(vfs, maxlen, ctx.quick), workers=1,
+    # the invariants are checked on the Vfs=TRUE graph; the other one is a sub-graph of it
+    cfg = model_cfg(vfs, maxlen, ctx.quick) if vfs else model_cfg(vfs, maxlen, ctx.quick, invariants=("StateOK",))
+    nodes, edges, inits, res = tlc.graph(ctx, "BranchOpsMC", cfg_text=cfg, workers=1,
                                          label="MC + graph Vfs=%s MaxLen=%d" % (vfs, maxlen), timeout=1500)
     if not edges or len(inits) != 1:
         ctx.machinery("empty state graph")
@@ -527,22 +533,48 @@ def graph_paths(ctx, vfs, maxlen, max_len):
     return [[parse_action(e[1]) for e in p] for p in paths]
 
 
+def corrupted(rows):
+    """Binding self-test rows: copies of a recorded row with (1) one value of the first bzr:// run changed - TLC must
+    report that run as differing from the local one - and (2) the same stored-state field changed in every run - TLC
+    must report drift from the specification but no local/remote difference."""
+    import copy
+    row = next((r for r in rows if len(r["acts"]) >= 3 and len(r["runs"]) >= 2
+                and all(run[1] == r["runs"][0][1] for run in r["runs"])), None)
+    if row is None:
+        return []
+    a, b = copy.deepcopy(row), copy.deepcopy(row)
+    a["runs"][1][1][2][1] = a["runs"][1][1][2][1] + [7]
+    for run in b["runs"]:
+        run[1][1][2]["tip"] = 7
+    return [(a, ["%s@3" % a["runs"][1][0]], True), (b, [], True)]
+
+
 def judge(ctx, rows, chunk=400):
     """BranchOpsTrace: TLC compares every recorded run with the other runs of its row (the property) and with
-    BranchOps!Run (conformance)."""
+    BranchOps!Run (conformance).  The last TLC run also gets the self-test rows, which it must reject."""
     bad = []
-    for off in range(0, len(rows), chunk):
+    test = corrupted(rows)
+    if not test and not ctx.violations:
+        ctx.machinery("no recorded row is long enough for the binding self-test")
+    offs = list(range(0, len(rows), chunk))
+    for off in offs:
         part = rows[off:off + chunk]
+        extra = [t[0] for t in test] if off == offs[-1] else []
         fin = os.path.join(ctx.workdir, "rows_%d.json" % int(time.time() * 1e6))
         with open(fin, "w") as f:
-            json.dump(part, f)
+            json.dump(part + extra, f)
         data, res = tlc.json_cases(ctx, "BranchOpsTrace", cfg_text="INIT Init\nNEXT Next\n", env={"VF_IN": fin},
                                    label="BranchOpsTrace", workers=1, timeout=1500)
         os.unlink(fin)
-        if data["n"] != len(part):
-            ctx.machinery("trace module consumed %s of %d rows" % (data["n"], len(part)))
-        for b in data["bad"]:
-            bad.append((part[b["row"] - 1], b))
+        if data["n"] != len(part) + len(extra):
+            ctx.machinery("trace module consumed %s of %d rows" % (data["n"], len(part) + len(extra)))
+        verdicts = {b["row"]: b for b in data["bad"]}
+        for j, (_, failed, drift) in enumerate(test if extra else []):
+            v = verdicts.pop(len(part) + j + 1, {})
+            if sorted(v.get("failed", [])) != failed or bool(v.get("drift")) != drift:
+                ctx.machinery("binding self-test: TLC judged corrupted row %d as %s" % (j + 1, v))
+        for k in sorted(verdicts):
+            bad.append((part[k - 1], verdicts[k]))
     return bad
 
 
@@ -555,10 +587,13 @@ def run(ctx):
     os.environ.pop("BRZ_NO_SMART_VFS", None)
     FIX = Fixture(ctx)
     maxlen = 4 if ctx.quick else 5
-    for w in ("WitnessDiverged", "WitnessTagConflict", "WitnessPendingConfig", "WitnessGhostTag", "WitnessOffMainline",
-              "WitnessCommitOnSide", "WitnessNestedLock"):
-        tlc.check(ctx, "BranchOpsMC", cfg_text=model_cfg(True, 3, ctx.quick, invariants=(w,)), expect_violation=w,
-                  label="witness " + w, workers=1)
+    # anti-vacuity: one TLC run (-continue) must violate every witness invariant
+    res = tlc.run(ctx, "BranchOpsMC", cfg_text=model_cfg(True, 3, ctx.quick, invariants=WITNESSES), workers=1,
+                  allow_violation=True, extra=("-continue",), timeout=900)
+    missing = [w for w in WITNESSES if "Invariant %s is violated" % w not in res["output"]]
+    if missing:
+        ctx.machinery("vacuity guard: TLC did not reach %s" % missing)
+    ctx.add_tlc(res, "witnesses " + " ".join(WITNESSES))
     full = graph_paths(ctx, True, maxlen, 16)
     nov = graph_paths(ctx, False, maxlen, 16)
     budget = 150 if ctx.quick else 3000
@@ -574,6 +609,7 @@ def run(ctx):
     ctx.cov["exhaustive"] = len(jobs) == len(full) + len(nov)
     core.fork_map(ctx, replay_paths, jobs)
     rows = ctx.collected
+    ctx.cov["smart_requests"] = sum(r["requests"] for r in rows)
     if len(rows) != len(jobs):
         ctx.machinery("%d of %d behaviours recorded" % (len(rows), len(jobs)))
     pyfail = {(v[2]["mode"], v[2]["step"], json.dumps(v[2]["acts"])) for v in ctx.violations}
